@@ -177,6 +177,14 @@ def tag_of(pc):
 # implementation side (worker process)
 # ---------------------------------------------------------------------------
 
+def preload():
+    """Import the library in the parent, so that forked workers do not each pay the import (on a loaded
+    machine 16 simultaneous imports can eat a large part of the per-call time limit)."""
+    import solvor.cp  # noqa: F401
+    import solvor.cp_encoder  # noqa: F401
+    import solvor.sat  # noqa: F401
+
+
 class SatTimeout(Exception):
     pass
 
